@@ -118,14 +118,16 @@ def _paths(fwd, inv):
             want = base.log_prob(b.inverse(x, cond), cb) + ld
             out["lp_x_def"] = jnp.where(jnp.isnan(want), -jnp.inf, want)
             out["ld"] = ld
+            out["z"] = b.inverse(x, cond)
         return out
 
     _PATHS[(fwd, inv)] = f
     return f
 
 
-def judge(dist, fwd, inv, rt, add, tag, keys, xs, cond, counters):
-    """Returns transitions."""
+def judge(dist, fwd, inv, rt, add, tag, keys, xs, cond, counters, support=None):
+    """Returns transitions. ``support`` = (lo, hi) arrays of a box-supported base: an inverse image outside the box must give
+    exactly -inf (judged without the base's own public log_prob, which shares log_prob's NaN / infinity handling)."""
     import jax.numpy as jnp
 
     f = _paths(bool(fwd), bool(inv))
@@ -154,6 +156,13 @@ def judge(dist, fwd, inv, rt, add, tag, keys, xs, cond, counters):
             if inv:
                 tr += 1
                 counters["nontrivial"] = counters.get("nontrivial", 0) + int(abs(float(o["ld"])) > 1e-3)
+                if support is not None and np.all(np.isfinite(o["z"])):
+                    lo_, hi_ = support
+                    if np.any((o["z"] < lo_ - 1e-9) | (o["z"] > hi_ + 1e-9)):
+                        counters["outside_support_points"] = counters.get("outside_support_points", 0) + 1
+                        if not (o["lp_x"] == -np.inf):
+                            add(f"{tag}|log_prob-outside-support", f"{tag}: the inverse image {o['z'].tolist()} of x = {np.asarray(x).tolist()} lies outside the base's support "
+                                                                   f"[{np.asarray(lo_).tolist()}, {np.asarray(hi_).tolist()}] but log_prob(x) = {float(o['lp_x'])!r}, not -inf")
                 if o["lp_x"].shape != () or not tree_close(o["lp_x"], o["lp_x_def"], rt):
                     add(f"{tag}|log_prob", f"{tag}: log_prob({np.asarray(x).tolist()}) = {float(o['lp_x'])!r} but base.log_prob(inverse(x)) + inverse log-det = {float(o['lp_x_def'])!r} (log-det {float(o['ld'])!r})")
     return tr
@@ -203,9 +212,14 @@ def run_case(case):
             if not ii.fwd or np.any(ii.cod == "X"):
                 xs = [np.full(ii.shape, v) for v in (0.3, -0.4)] if not np.any(np.isin(ii.cod, ["P"])) else [np.full(ii.shape, 0.7)]
             xs.append(np.full(ii.shape, 0.45))
+            support = None
+            if case["base"] == "Uniform":
+                support = (np.asarray(base.minval, float), np.asarray(base.maxval, float))
+                if not np.any(np.isin(ii.cod, ["P", "X"])):
+                    xs += [np.full(ii.shape, 60.0), np.full(ii.shape, -45.0)]  # far outside any image of the base's box
             rt = 1e-3 if (ii.num_fwd or ii.num_inv) else 1e-9
             try:
-                tr += judge(dist, ii.fwd, ii.inv, rt, add, tag, keys, xs, cond, counters)
+                tr += judge(dist, ii.fwd, ii.inv, rt, add, tag, keys, xs, cond, counters, support)
             except Exception as e:
                 add(f"{tag}|raises|{type(e).__name__}", f"{tag} level {level}: {type(e).__name__}: {str(e)[:300]}")
         sample = {"dist": tag}
@@ -259,6 +273,6 @@ def run_case(case):
                 if not tree_close(nested.log_prob(x, cond), merged.log_prob(x, cond), 1e-9):
                     add(f"{tag}|merge-log_prob", f"{tag}: merge_transforms changed log_prob")
         sample = {"dist": tag}
-    return {"transitions": tr, "traces": tr, "states": 1, "nontrivial": counters.get("nontrivial", 0), "violations": viols,
+    return {"transitions": tr, "traces": tr, "states": 1, "nontrivial": counters.get("nontrivial", 0), "violations": viols, "counters": {"outside_support_points": counters.get("outside_support_points", 0)},
             "outcomes": {f"{case['leg']}:{'ok' if not viols else 'BAD'}": 1},
             "digest": hashlib.sha1(repr((tr, sorted(seen))).encode()).hexdigest(), "sample": sample}
